@@ -56,7 +56,7 @@ def kept_mutations(rows, samples=None):
     return kept, samples
 
 
-COLUMNS = ["mutation_id", "sample_id", "ref_counts", "alt_counts", "major_cn", "minor_cn", "normal_cn", "tumour_content", "error_rate"]
+COLUMNS = ["mutation_id", "sample_id", "ref_counts", "alt_counts", "major_cn", "minor_cn", "normal_cn", "tumour_content", "error_rate", "gene", "effect"]
 
 
 def write_table(rows, path, sep="\t", columns=None):
